@@ -354,7 +354,25 @@ def rule_h(prog, rep):
         if len(pg) != 1:
             problems.append(f'{len(pg)} pget calls')
         pushes = [(nd, anc) for nd, anc in crate.walk_fn(f) if nd.get('k') == 'call' and short(callee(nd)) == 'push' and 'Vec' in callee(nd)]
-        if len(pushes) != 1:
+        chain_form = False
+        if not pushes:
+            # iterator spelling: pget(..).into_iter().flatten().filter_map(|kvp| from_value(kvp.value).ok()).flatten().collect()
+            tail = crate.user_body(f).hir
+            while isinstance(tail, dict) and tail.get('k') == 'block' and 'tail' in tail:
+                tail = tail['tail']
+            names, cur = [], tail
+            while isinstance(cur, dict) and cur.get('k') == 'call' and cur['args'] and callee(cur) != f'{CORE}::pget':
+                names.append(short(callee(cur)))
+                cur = cur['args'][0]
+                while isinstance(cur, dict) and cur.get('k') in ('ref',):
+                    cur = cur['e']
+            allowed = {'into_iter', 'iter', 'flatten', 'flat_map', 'filter_map', 'map', 'collect', 'ok', 'unwrap_or_default', 'cloned', 'into_values'}
+            decodes = any(x.get('k') == 'call' and short(callee(x)) == 'from_value' for b_ in [f] + crate.closures_of(f) for x, _ in walk(b_.hir))
+            chain_form = isinstance(cur, dict) and cur.get('k') == 'call' and callee(cur) == f'{CORE}::pget' and 'collect' in names and \
+                set(names) <= allowed and decodes
+        if chain_form:
+            pass
+        elif len(pushes) != 1:
             problems.append(f'{len(pushes)} push sites')
         else:
             nd, anc = pushes[0]
